@@ -163,19 +163,18 @@ fn main() {
 }
 
 fn replay_file(ctx: &Ctx, pd: &props::PropDef, path: &str) -> bool {
-    let txt = match std::fs::read_to_string(path) {
+    let raw = match std::fs::read(path) {
         Ok(t) => t,
         Err(e) => {
             ctx.inconclusive(format!("cannot read replay file {path}: {e}"));
             return true;
         },
     };
-    let v: serde_json::Value = match serde_json::from_str(&txt) {
-        Ok(v) => v,
-        Err(e) => {
-            ctx.inconclusive(format!("replay file {path}: {e}"));
-            return true;
-        },
+    let parsed = std::str::from_utf8(&raw).ok().and_then(|t| serde_json::from_str::<serde_json::Value>(t).ok()).filter(|v| v.get("case").is_some());
+    let v: serde_json::Value = match parsed {
+        Some(v) => v,
+        // not one of our JSON replay files: a raw libFuzzer artifact / corpus file
+        None => serde_json::json!({"sub": "fuzz_bytes", "case": raw}),
     };
     let sub = v["sub"].as_str().unwrap_or("").to_string();
     let ok = (pd.replay)(ctx, &sub, &v["case"], path);
